@@ -114,6 +114,27 @@ def dense_cases(rng, n):
     return out
 
 
+def big_cases(rng, n):
+    """beyond the small scope: 600-2500 elements, 280-800 groups (codes past 255), 12-40 blocks (deep trees)"""
+    out = []
+    for _ in range(n):
+        m = rng.randint(600, 2500)
+        ng = rng.randint(280, 800)
+        labels = [rng.randrange(ng) for _ in range(m)]
+        if rng.random() < 0.3:
+            labels = [l if rng.random() > 0.02 else "nan" for l in labels]
+        func = rng.choice(["sum", "nanmax", "mean", "count", "nanfirst", "argmax", "min", "nansum", "nanlast"])
+        vals = [rng.choice([-3, -2, -1, 0, 1, 2, 3, 5]) for _ in range(m)]
+        if func.startswith("nan") or func == "count":
+            vals = [v if rng.random() > 0.05 else "nan" for v in vals]
+        chunks = G.random_composition(rng, m, rng.randint(12, 40))
+        c = {"func": func, "vals": vals, "labels": labels, "chunks": [list(chunks)], "method": rng.choice([None, "map-reduce", "cohorts"]),
+             "reindex": rng.choice([None, True, False]), "engine": rng.choice(["numpy", "flox", None]), "split_every": rng.choice([None, 2, 3]),
+             "expected": list(range(ng)), "fill_value": -7}
+        out.append(c)
+    return out
+
+
 def nontrivial(case):
     sizes = case["chunks"][0]
     if len(sizes) < 2:
@@ -142,6 +163,8 @@ def run(run: C.Run):
         cases += gen_cases(rng, 1300)
         cases += dense_cases(rng, 400)
     R.check_reduce_cases(run, cases, "C02", nontrivial, grouped_fn=grouped_fn, vs_eager=True)
+    # large inputs: eager / NumPy oracle only (not sent to the Coq model)
+    R.check_reduce_cases(run, big_cases(rng, 250 if thorough else 40), "C02", nontrivial, grouped_fn=grouped_fn, vs_eager=True, model=False)
     if not proofs_ok and not run.violations:
         run.violation({"property": "C02", "kind": "proof obligation no longer checks",
                        "failed": P.failed_obligations(run), "searched": run.cov["evaluations"]},
@@ -151,7 +174,7 @@ def run(run: C.Run):
         "the Coq pipeline model; all compositions of the axis for n<=5 (quick) / 7 (thorough) x method {None,map-reduce,cohorts,"
         "blockwise} x reindex {None,True,False}, plus random cases n<=12, <=4 groups, missing labels, numpy/dask labels, "
         "engines numpy/flox/auto, expected exact/superset/subset/absent, split_every 2/3/default; refusals (ValueError/"
-        "NotImplementedError) are counted, not compared; non-trivial: >=2 blocks, a group in >=2 blocks and a block lacking a group")
+        "NotImplementedError) are counted, not compared; plus large cases (600-2500 elements, 280-800 groups, 12-40 blocks) vs eager and NumPy only; non-trivial: >=2 blocks, a group in >=2 blocks and a block lacking a group")
 
 
 def replay(run: C.Run, path):
